@@ -568,6 +568,12 @@ func (db *DB) SetDeviceCertChain(ctx context.Context, chain []*x509.Certificate)
 	if !ok {
 		return fdo.ErrInvalidSession
 	}
+	// Like every other session setter, setting the chain again replaces the
+	// previous value: device_info has no unique constraint on session, so a
+	// second plain insert would leave the stale row to be read back
+	if err := remove(db.debugCtx(ctx), db.db, "device_info", map[string]any{"session": sessID}, nil); err != nil && !errors.Is(err, fdo.ErrNotFound) {
+		return fmt.Errorf("error replacing device certificate chain: %w", err)
+	}
 	if err := db.insert(ctx, "device_info", map[string]any{
 		"x509_chain": derEncode(chain),
 		"session":    sessID,
